@@ -196,13 +196,13 @@ def judge_select(ctx, pop, result, drawn, tag):
 
 
 def cases(ctx):
-    for i in range(ctx.pick(1500, 160000)):
+    for i in range(ctx.pick(1500, 960000)):
         yield "crowding", {"seed": ctx.subseed("cd", i)}
-    for i in range(ctx.pick(1000, 100000)):
+    for i in range(ctx.pick(1000, 600000)):
         yield "truncate", {"seed": ctx.subseed("tr", i), "max_size": ctx.pick(40, 80)}
-    for i in range(ctx.pick(750, 80000)):
+    for i in range(ctx.pick(750, 480000)):
         yield "tournament", {"seed": ctx.subseed("to", i)}
-    for i in range(ctx.pick(90, 6000)):
+    for i in range(ctx.pick(90, 36000)):
         yield "insitu", {"seed": ctx.subseed("is", i),
                          "algo": ["nsga2", "epsmoea", "nsga2", "smpso", "psoga", "omopso"][i % 6]}
 
